@@ -112,4 +112,44 @@ Exec(T, recs, i, st) ==
   ELSE Exec(T, recs, i + 1, st)       \* B, C, S, BW: no liquid moves
 
 Run(T, vol, comp, recs) == Exec(T, recs, 1, RobotInit(vol, comp))
+
+(***************************************************************************)
+(* The same interpreter on the SUPPORT of the compositions only (which     *)
+(* components are present in a cavity, whatever their fractions).  It has  *)
+(* no arithmetic on fractions and therefore no limit on dilution depth: a  *)
+(* component never vanishes from a cavity that is not emptied and never    *)
+(* appears without having been dispensed.  Records the main interpreter    *)
+(* rejects are skipped here (clauses using RunSup require Run(...).err="").*)
+(* st = [vol, sup, tip]: tip = [known, s] the support of the tip content.  *)
+(***************************************************************************)
+SupAsp(st, k, cav, x) == [st EXCEPT !.vol[k][cav] = @ - x, !.tip = [known |-> TRUE, s |-> st.sup[k][cav]]]
+SupDisp(st, k, cav, x) ==
+  IF x = 0 THEN st
+  ELSE [st EXCEPT !.vol[k][cav] = @ + x,
+                  !.sup[k][cav] = (IF st.vol[k][cav] = 0 THEN {} ELSE @) \cup (IF st.tip.known THEN st.tip.s ELSE {})]
+
+RECURSIVE ExecSup(_, _, _, _)
+ExecSup(T, recs, i, st) ==
+  IF i > Len(recs) THEN st ELSE
+  LET r == recs[i] IN
+  IF r.t \in {"A", "D"} /\ HasRack(T, r.rack) THEN
+      LET k == RackIdx(T, r.rack)  g == T.lw[k].g IN
+      IF r.pos < 1 \/ r.pos > NPos(T.dev, g) \/ r.cents < 0 \/ r.cents % T.unitc # 0 THEN ExecSup(T, recs, i + 1, st) ELSE
+      LET cav == CavOfPos(T.dev, g, r.pos)  x == r.cents \div T.unitc IN
+      ExecSup(T, recs, i + 1, IF r.t = "A" THEN SupAsp(st, k, cav, x) ELSE SupDisp(st, k, cav, x))
+  ELSE IF r.t \in {"W", "WD", "F"} THEN ExecSup(T, recs, i + 1, [st EXCEPT !.tip = [known |-> FALSE, s |-> {}]])
+  ELSE IF r.t = "R" /\ HasRack(T, r.srack) /\ HasRack(T, r.drack) THEN
+      LET ks == RackIdx(T, r.srack)  kd == RackIdx(T, r.drack)
+          gs == T.lw[ks].g           gd == T.lw[kd].g IN
+      IF r.s1 < 1 \/ r.s1 > NPos(T.dev, gs) \/ r.d1 < 1 \/ r.d2 < r.d1 \/ r.d2 > NPos(T.dev, gd) \/ r.volc < 0 \/ r.volc % T.unitc # 0
+      THEN ExecSup(T, recs, i + 1, st) ELSE
+      LET scav == CavOfPos(T.dev, gs, r.s1)  x == r.volc \div T.unitc
+          ps == SelectSeq([j \in 1..(r.d2 - r.d1 + 1) |-> r.d1 + j - 1], LAMBDA p : p \notin Range(r.excl))
+          RECURSIVE Each(_, _)
+          Each(s, j) == IF j > Len(ps) THEN s
+                        ELSE Each(SupDisp(SupAsp(s, ks, scav, x), kd, CavOfPos(T.dev, gd, ps[j]), x), j + 1)
+      IN ExecSup(T, recs, i + 1, [Each(st, 1) EXCEPT !.tip = [known |-> FALSE, s |-> {}]])
+  ELSE ExecSup(T, recs, i + 1, st)
+
+RunSup(T, vol, sup, recs) == ExecSup(T, recs, 1, [vol |-> vol, sup |-> sup, tip |-> [known |-> FALSE, s |-> {}]])
 =============================================================================
